@@ -399,9 +399,10 @@ def _replay_schema(case: dict) -> List[str]:
 PROPS["C10"] = {"theorems": ["C10_outcome", "C10_json_only_partial", "C10_wellformed_partial", "D26_witness", "C10_ref",
                              "C10_nonrecurrent", "C10_lazy_unnamed", "predSchema_outcome", "jsonOnlyO_jaddPred",
                              "wfO_jaddPred", "predSchema_wf", "src_pred_schema", "src_pred_schema_arms_known",
-                             "src_schema_pins"],
-                "modules": ["KodaModel.Properties.C10", "KodaModel.Properties.C10WF", "KodaModel.Properties.C10Src"],
-                "level_note": "tied to the source for the predicate keywords: generate_schema_predicate is translated on every "
+                             "src_schema_pins", "src_schema_validator_pinned"],
+                "modules": ["KodaModel.Properties.C10", "KodaModel.Properties.C10WF", "KodaModel.Properties.C10Src",
+                            "KodaModel.Properties.C10Pins"],
+                "level_note": "the text of the schema generators for validators (json_schema.py, everything but the translated generate_schema_predicate) is pinned against the current source (src_schema_validator_pinned).  tied to the source for the predicate keywords: generate_schema_predicate is translated on every "
                               "run (Generated/SchemaPredSrc.lean: class tested, keyword(s), parameter, value form) and "
                               "src_pred_schema proves its interpretation (KodaModel/PySchemaPred.lean) equal to the model's "
                               "predSchema for every predicate and printer, so predSchema_outcome / predSchema_wf speak about the "
@@ -443,10 +444,11 @@ PROPS["C11"] = {"theorems": ["C11_scalar", "C11_scalar_schema", "C11_scalar_vali
                              "predCheck_PredOK", "predCheck_noRaise", "SchemasDecide.count", "C11_record_schema",
                              "node_record_validator", "node_ntuple_validator", "fields_formula", "foldl_jset_nodup",
                              "C11_map_schema", "node_map_validator", "node_equals_validator", "equals_schema_eq",
-                             "node_utuple_validator", "PredOK_minKeys", "PredOK_maxKeys", "jaddPred_noclash", "src_pred_schema"],
+                             "node_utuple_validator", "PredOK_minKeys", "PredOK_maxKeys", "jaddPred_noclash", "src_pred_schema", "src_schema_validator_pinned"],
                 "modules": ["KodaModel.Properties.C11", "KodaModel.Properties.C11Pat", "KodaModel.Properties.C11Containers",
-                            "KodaModel.Properties.C11Record", "KodaModel.Properties.C11Glue", "KodaModel.Properties.C10Src"],
-                "level_note": "the predicate keywords are tied to the source (src_pred_schema: the translated "
+                            "KodaModel.Properties.C11Record", "KodaModel.Properties.C11Glue", "KodaModel.Properties.C10Src",
+                            "KodaModel.Properties.C10Pins"],
+                "level_note": "the text of the schema generators for validators (json_schema.py, everything but the translated generate_schema_predicate) is pinned against the current source (src_schema_validator_pinned).  the predicate keywords are tied to the source (src_pred_schema: the translated "
                               "generate_schema_predicate is the model's predSchema, which the PredOK_* theorems are about).  Proved: `C11_iff_partial` — for every tree (any depth, any width) built from string / integer / float / "
                               "boolean validators with typed predicates, equality validators, lists, uniform and n-tuples, string-keyed maps, "
                               "the five record kinds, key-not-required, unions and optionals, and every JSON value, the "
@@ -479,9 +481,9 @@ PROPS["C07"] = {"theorems": ["C07_strict_tree_partial", "C07_strict_iff_partial"
                              "C07_none", "C07_list_step", "derive_scalar", "defaultCoerce_typed", "strict_scalar_iff", "C07_strict_tree2_partial", "C07_strict_iff2_partial", "node_utuple_plain", "node_ntuple_plain", "node_maybe", "hasTypeZip_slots",
                              "C07_default_tree_partial", "C07_default_iff_partial", "C07_default_complete_partial",
                              "C07_default_sound_partial", "hasType_accD", "node_scalar_dflt", "node_utuple_dflt",
-                             "node_ntuple_dflt"],
-                "modules": ["KodaModel.Properties.C07", "KodaModel.Properties.C07Tree", "KodaModel.Properties.C07Tree2", "KodaModel.Properties.C07Dflt"],
-                "level_note": "default resolver, for every annotation built from scalars, classes, Any, None, bare list / tuple, "
+                             "node_ntuple_dflt", "src_typehints_pinned"],
+                "modules": ["KodaModel.Properties.C07", "KodaModel.Properties.C07Tree", "KodaModel.Properties.C07Tree2", "KodaModel.Properties.C07Dflt", "KodaModel.Properties.C07Pins"],
+                "level_note": "the text of koda_validate/typehints.py (whole module) the hand-written model `derive` was written against is pinned, statement by statement, against the text that is there now (src_typehints_pinned; Generated/PinsSrc.lean is regenerated on every run): a change there is an obligation that no longer checks and starts the failing-input search.  default resolver, for every annotation built from scalars, classes, Any, None, bare list / tuple, "
                               "List[..], Tuple[T, ...], Tuple[A, B, ..], Maybe[..], Union[..] / Optional[..] (any nesting) and "
                               "every Python value: C07_default_tree_partial (the derived validator terminates and accepts exactly "
                               "the structural specification accD), C07_default_complete_partial (a value of the annotated type "
@@ -532,18 +534,19 @@ _SIG_RULE = ("functions generated over the five parameter kinds (0-2 of each, an
              "extra *args and **kwargs incl. a keyword named like a positional-only parameter), valid / invalid values per "
              "argument and for the return value; non-trivial = at least one checked parameter was supplied")
 PROPS["C08"] = {"theorems": ["C08_body_iff", "C08_invalid_args", "C08_all_pass", "C08_return", "C08_body_exception",
-                             "kwSlot_not_byKeyword", "posSlot_overflow"],
-                "modules": ["KodaModel.Properties.C08"],
+                             "kwSlot_not_byKeyword", "posSlot_overflow", "src_signature_pinned"],
+                "modules": ["KodaModel.Properties.C08", "KodaModel.Properties.C08Pins"],
                 "run": _run_sig, "replay": _replay_sig, "rule": _SIG_RULE,
-                "level_note": "the theorems are about `wrapCall` for every signature, call, body and validator evaluator; "
+                "level_note": "the text of validate_signature / _wrap_fn / _get_validator / resolve_signature_typehint_default the hand-written model (KodaModel/Signature.lean) was written against is pinned against the current source (src_signature_pinned): a change there is an obligation that no longer checks and starts the failing-input search.  the theorems are about `wrapCall` for every signature, call, body and validator evaluator; "
                               "how Python binds a call to parameters (inspect.signature, defaults, TypeError for illegal calls) "
                               "is not modelled: the stream generates legal calls and compares slot assignment, body-ran, "
                               "error keys and delivered values with the real decorator"}
 PROPS["C09"] = {"theorems": ["C08_all_pass", "C09_unchecked_untouched", "C09_checked_payload", "C09_transparent_return",
                              "slot_pass_iff", "C08_body_exception", "C07_strict_iff2_partial", "C07_strict_tree2_partial",
-                             "C07_strict_iff_partial", "C07_scalar_strict"],
-                "modules": ["KodaModel.Properties.C08", "KodaModel.Properties.C07Tree", "KodaModel.Properties.C07Tree2"],
-                "level_note": "delivery and return transparency are proved for `wrapCall`; strictness of the default "
+                             "C07_strict_iff_partial", "C07_scalar_strict", "src_signature_pinned", "src_typehints_pinned"],
+                "modules": ["KodaModel.Properties.C08", "KodaModel.Properties.C07Tree", "KodaModel.Properties.C07Tree2",
+                            "KodaModel.Properties.C08Pins", "KodaModel.Properties.C07Pins"],
+                "level_note": "the text of validate_signature / _wrap_fn / _get_validator / resolve_signature_typehint_default the hand-written model (KodaModel/Signature.lean) was written against is pinned against the current source (src_signature_pinned): a change there is an obligation that no longer checks and starts the failing-input search.  the text of koda_validate/typehints.py (whole module) the hand-written model `derive` was written against is pinned, statement by statement, against the text that is there now (src_typehints_pinned; Generated/PinsSrc.lean is regenerated on every run): a change there is an obligation that no longer checks and starts the failing-input search.  delivery and return transparency are proved for `wrapCall`; strictness of the default "
                               "signature resolution (nothing is coerced: accepted iff the value already is of the "
                               "annotated type) is proved for the annotation forms of `annFrag2` - scalars, classes, Any, None, bare list / "
                               "tuple, List, Tuple[T, ...], Tuple[A, B, ...], Maybe, Union / Optional, any nesting "
